@@ -247,6 +247,58 @@ def run(ctx):
     chk = fj.call_blocks(JOB + 'is_terminated')
     ctx.ob('R09.4', 'forget_job|checks is_terminated', bool(chk), 'forget_job consults Job::is_terminated before removing', fj.loc())
 
+    # caller guard <-> callee assertion agreement: forget_job asserts is_terminated, so every caller must have tested exactly that
+    ctx.rule('R09.5', 'guard/assertion agreement: callers of State::forget_job test Job::is_terminated (the predicate forget_job asserts); every registered worker is announced to a newcomer (LostWorker is broadcast for every registered worker and the worker asserts it knows the id)')
+    asserted = bool(fj.call_blocks(JOB + 'is_terminated'))
+    for o, b, bi in call_sites(prog, fj.path):
+        if is_test_util(o):
+            continue
+        ob_ = prog.bodies[o]
+        nested = [prog.bodies[p] for p in prog.with_closures(o)]
+        tests = [x for x in nested if x.call_blocks(JOB + 'is_terminated')]
+        # the forget_job call is guarded by a bool that derives from the closure(s) testing is_terminated
+        ok = False
+        from hqrules.templates import bool_uses
+        for x in tests:
+            for y in range(len(b.locals)):
+                if b.locals[y][0] == 'bool':
+                    srcs = b.derived_from(y)
+                    for z in srcs:
+                        for d in b.defs().get(z, ()):
+                            if d[1] == 'a' and d[2]['rv'][0] == 'agg' and d[2]['rv'][1][0] == 'closure' and norm(d[2]['rv'][1][1]) == x.path:
+                                te = set((sb, ts) for sb, ts, fs in bool_uses(b, y))
+                                if te and dominated_by_edges(b, bi, te):
+                                    ok = True
+            if x.path == b.path:
+                e, _ = guard_edges(b, JOB + 'is_terminated', True)
+                if e and dominated_by_edges(b, bi, e):
+                    ok = True
+        ctx.ob('R09.5', f'{o.split("::")[-1]}|forget_job guarded by Job::is_terminated', ok and asserted,
+               'forget_job asserts job.is_terminated(); its caller must have tested the same predicate (a different notion of "terminated" makes a plain client request panic the server)', b.loc(bi))
+    wrl = [prog.bodies[p] for p in prog.with_closures(T + 'server::rpc::worker_rpc_loop')]
+    NWM = T + 'messages::worker::NewWorkerMsg'
+    nsite = 0
+    for b in wrl:
+        for o, bb, bi, s in construct_sites(prog, NWM):
+            if bb.path != b.path or b.kind != 'closure':
+                continue
+            nsite += 1
+            # guards dominating the construction: bool switches whose condition derives from a call
+            bad = []
+            for x in b.reachable():
+                si = b.switch_info(x)
+                if not si or si['kind'] != 'bool' or not b.dominates(x, bi):
+                    continue
+                for y in b.derived_from(si['local']):
+                    for d in b.defs().get(y, ()):
+                        if d[1] == 'call':
+                            c = callee_decl(d[2]) or ''
+                            if not c.endswith(('PartialEq::ne', 'PartialEq::eq')):
+                                bad.append(c)
+            ctx.ob('R09.5', 'worker_rpc_loop|other_workers excludes only the newcomer', not bad,
+                   f'the initial worker list sent to a new worker is filtered by identity only (extra filters: {sorted(set(x.split("::")[-1] for x in bad))}); on_remove_worker broadcasts LostWorker for every registered worker and WorkerState::remove_worker asserts the id is known', b.loc(bi))
+    ctx.floor('R09.5', nsite, 1, 'NewWorkerMsg construction in the other_workers closure')
+
     # ---- informational inventory
     inv = defaultdict(int)
     for hp in list(handlers) + [REACTOR + 'on_cancel_tasks', REACTOR + 'on_remove_worker', REACTOR + 'on_new_tasks', MAPPING + 'create_task_mapping']:
